@@ -170,7 +170,7 @@ def main():
             dict(name='layout', path='spec/LayoutSpec.tla', serves_properties=['C04', 'C05', 'C06'],
                  kind_free_text='abstract nondeterministic layout machine + concrete LayoutImpl.tla/LayoutImplMC.tla/Render.tla, run by TLC; harness/checks/layout.py feeds real SDoc streams'),
             dict(name='registry', path='spec/Registry.tla', serves_properties=['C15'], kind_free_text='Registry.tla + RegistryMC.tla + RegistryTrace.tla (TLC); harness/checks/registry.py'),
-            dict(name='threads', path='spec/RegistryThreads.tla', serves_properties=['C20'], kind_free_text='RegistryThreads.tla + RegistryThreadsTrace.tla (TLC); harness/sched.py deterministic scheduler'),
+            dict(name='threads', path='spec/RegistryThreads.tla', serves_properties=['C20'], kind_free_text='RegistryThreads.tla + RegistryThreadsTrace.tla + CallsMC.tla + ConcurrentCalls.tla (TLC); harness/sched.py deterministic scheduler'),
             dict(name='config', path='spec/Config.tla', serves_properties=['C18'], kind_free_text='Config.tla + ConfigMC.tla + ConfigTrace.tla (TLC)'),
             dict(name='terms', path='spec/PyTerm.tla', serves_properties=['C01', 'C03', 'C08', 'C09', 'C10', 'C11'], kind_free_text='PyTerm.tla (Denote/TEq/Truncate/CutSyn) + TermTrace.tla batch validation by TLC; harness/pyterm.py extracts syntax terms'),
             dict(name='strsplit', path='spec/StrSplit.tla', serves_properties=['C02'], kind_free_text='StrSplit.tla + StrSplitTrace.tla'),
